@@ -7,7 +7,9 @@
    Model.PipelineMirrors -- from the desugared syntax tree onwards no stage of that chain
    is a parameter; the LALRPOP parser is one -- and [C01_pipeline_mirrors_never_panic]
    composes their totality theorems, with the bridges between them proved; the remaining
-   stages are premises of the generic [C01_pipeline_total].
+   stages (parser automaton, analysis passes, output) are covered by NO theorem: observed
+   by the engine, their panic sites inventoried (third audit: the generic assembly over
+   abstract stages is no obligation any more).
    Property theorems only: each is closed by [exact] of a lemma, followed by
    Print Assumptions. *)
 From Coq Require Import ZArith List Bool String.
@@ -233,7 +235,7 @@ Print Assumptions C01_complexity_does_not_underflow.
 (*   -> Model.Propagate.propagate                                             *)
 (*                                                                            *)
 (* The analysis passes and the output stage are not part of the chain (they   *)
-(* remain premises of C01_pipeline_total below).                              *)
+(* are observed by the engine only; no theorem of this file covers them).     *)
 (* ------------------------------------------------------------------------ *)
 
 (* LIFTING (renaming pass, block construction, IR lifting of every statement and
@@ -519,54 +521,14 @@ Example C01_includes_example :
             List.length (Model.Includes.ps_read s) = 2%nat.
 Proof. exact Proofs.MirrorsExample.ex_fs_hypothesis. Qed.
 
-(* the generic assembly over ABSTRACT stage functions, kept for the stages that are not
-   part of the chain of mirrors above (the parser, the analysis passes, the output
-   stage): if no stage panics or runs out of fuel (an Err is allowed: it becomes a report
-   and the run continues) and the output stage ends with exit status 0 or 1, the pipeline
-   ends with exit status 0 or 1 for every command line.  For the stages files, desugar,
-   lift, ssa and propagate the premises are no longer backed by a comment: they are
-   instantiated with the mirrors and discharged by theorems in
-   C01_pipeline_mirrors_never_panic.  What backs the remaining premises:
-     parse      C05_preprocess_total, the action theorems above (C01_decnumber_,
-                hexnumber_, string_action_total, C01_version_action_never_panics);
-                build_log_call -> C01_split_string_never_panics; the LALRPOP
-                automaton and lexer are observed
-     lift       now part of the chain of mirrors (Model.LiftFull: renaming, lifting, IR
-                lifting); C10_pass_never_panics / C10_renaming_injective_on_declarations are
-                about C10's own mirror of the renaming pass
-     passes     C12_branch_only_last, C12_branch_targets_exist_and_are_succs,
-                C12_preds_succs_mirror, C15_*_exact (the cfg.rs accessors the taint
-                analysis uses), C09_taint_fuel_suffices, C11_*_reports_exact,
-                C01_complexity_does_not_underflow, C04_label_start_le_end (label
-                ranges); the other passes are observed
-     output     C03_exit_zero_iff_nothing_displayed, C03_summary_counts_displayed,
-                C04_label_construction_panics_only_on_unwrap *)
-Theorem C01_pipeline_total :
-  forall (Argv Source Ast Definition_ Cfg Ssa Report : Type)
-         (stage_files : Argv -> outcome (list Source))
-         (stage_parse : Source -> outcome Ast)
-         (stage_desugar : list Ast -> outcome (list Definition_ * list Report))
-         (stage_lift : Definition_ -> outcome Cfg)
-         (stage_ssa : Cfg -> outcome Ssa)
-         (stage_propagate : Ssa -> outcome Ssa)
-         (stage_passes : Ssa -> outcome (list Report))
-         (report_of_error : error -> Report)
-         (stage_output : list Report -> outcome Z)
-         (files_total : forall a, (forall s, stage_files a <> Panic s) /\ stage_files a <> OutOfFuel)
-         (parse_total : forall a, (forall s, stage_parse a <> Panic s) /\ stage_parse a <> OutOfFuel)
-         (desugar_total : forall a, (forall s, stage_desugar a <> Panic s) /\ stage_desugar a <> OutOfFuel)
-         (lift_total : forall a, (forall s, stage_lift a <> Panic s) /\ stage_lift a <> OutOfFuel)
-         (ssa_total : forall a, (forall s, stage_ssa a <> Panic s) /\ stage_ssa a <> OutOfFuel)
-         (propagate_total : forall a, (forall s, stage_propagate a <> Panic s) /\ stage_propagate a <> OutOfFuel)
-         (passes_total : forall a, (forall s, stage_passes a <> Panic s) /\ stage_passes a <> OutOfFuel)
-         (output_exit_status : forall rs, stage_output rs = Ok 0 \/ stage_output rs = Ok 1),
-  forall argv,
-    run_pipeline Argv Source Ast Definition_ Cfg Ssa Report stage_files stage_parse stage_desugar
-                 stage_lift stage_ssa stage_propagate stage_passes report_of_error stage_output argv = Ok 0 \/
-    run_pipeline Argv Source Ast Definition_ Cfg Ssa Report stage_files stage_parse stage_desugar
-                 stage_lift stage_ssa stage_propagate stage_passes report_of_error stage_output argv = Ok 1.
-Proof. exact pipeline_total. Qed.
-Print Assumptions C01_pipeline_total.
+(* Third audit: the former obligation C01_pipeline_total (the generic assembly over ABSTRACT stage functions:
+   "if no stage panics or runs out of fuel and the output stage ends with 0 or 1, run_pipeline ends with 0 or 1")
+   is NO LONGER AN OBLIGATION.  Every premise of it was an abstract function with an assumed totality; for the
+   stages files / desugar / lift / ssa / propagate the premises are discharged, with the mirrors, in
+   C01_pipeline_mirrors_never_panic above; for the parser automaton, the 13 analysis passes and the output stage
+   nothing instantiates them (those stages are OBSERVED by the engine, and their syntactic panic sites are in the
+   inventory).  The statement stays available as the lemma Proofs.PipelineProofs.pipeline_total; it is not counted
+   as proved coverage of C01. *)
 
 (* the hypotheses are satisfiable and the definitions compute: the repaired
    witnesses, and a pipeline instance in which one definition fails to lift *)
